@@ -21,7 +21,7 @@ pub mod xferprops;
 
 pub fn run_check(ctx: &Ctx, id: &str) -> i32 {
     match id {
-        "C01" | "C03" | "C05" | "C08" | "C09" | "C10" | "C12" => treeprops::run(ctx, id),
+        "C01" | "C03" | "C05" | "C08" | "C09" | "C10" | "C12" | "C20" => treeprops::run(ctx, id),
         "C04" => handleprops::run_c04(ctx),
         "C14" => handleprops::run_c14(ctx),
         "C02" => pairprops::run_c02(ctx),
